@@ -1,3 +1,37 @@
+/-
+Property C01 for WHOLE COMPUTATIONS, continued (prefix `c01f_`): the expression theorem of `Props/MethodExpr.lean`
+extended to the rest of the vector-, scalar- and truth-valued public API.
+
+`MethodExpr.lean` proves, by induction over the language `C01E.E`, that every finite expression of public methods whose
+intermediate values are GENERIC (a condition on the DENOTATIONS only) evaluates successfully and denotes the specified
+value, whatever coordinate systems / flavors / backends its variables are stored in.  It leaves out the nodes for which
+no single-call theorem had been wired in.  This file re-declares the language with ALL nodes of `E` plus those nodes
+(`F`, §2), reuses the per-node lemmas of `MethodExpr.lean` for the old nodes and adds one lemma per new node (§1), each
+citing the single-call theorem (`c01m_rotate_*`, `c09m_boost*_gamma`, `c09m_boostCM_of_*`, `c09m_to_beta3`,
+`c12m_transform2D/3D/4D`, the `toSystem` evaluation lemmas behind `c04m_to_project`), the `CanonClosed` theorem for the
+range of the result and the bridge lemmas `generic_storage_ok(4)` for the hypotheses of the call.
+
+Contents
+* §1  per-node lemmas: `spat_case` (generic lemma for the methods returning `spatialResult`), `rotate_quaternion_case`,
+      `rotate_euler_case`, `rotate_euler_ord_case` (12 orders), `rotate_nautical_case`, `rotate_axis_case`,
+      `boostX/Y/Zg4_case`, `to_beta3_case`, `proj2_case`, `proj3_case`, `transform2D/3D/4D_case`,
+      `boostCM_of_p4_case`, `boostCM_of_beta3_case`.
+* §2  language `F` (38 constructors), model `evalMF`, specification `evalSF`, genericity `GenericAllF`.
+* §3  MAIN THEOREM `c01f_eval`.      §4  COROLLARY `c01f_indep`, `c01f_indep_eq`.
+* §5  scalar expressions `SF` (the old accessors and two-vector methods, `abs`, `v ** 2`, `Et Et2 Mt Mt2`,
+      `deltaRapidityPhi(2)`): `c01f_evalS`, `c01f_indepS`.
+* §6  truth-valued expressions `TF` (`is_timelike/spacelike/lightlike(tol)`, `is_parallel/antiparallel/perpendicular
+      (other, tol)`, `==`, `!=`): `c01f_evalT`, `c01f_ne_iff_not_eq`, `c01f_indepT`.
+* §7  non-vacuity: `exF_generic` — `(v₀ + v₁).rotate_axis(v₂, π).boostZ(gamma=5/4).to_beta3()` (depth 5) over
+      `(x,y,z,t)`, `(ρ,φ,η,τ)` momentum and NumPy `(ρ,φ,z)` variables.
+* §8  `embed : C01E.E → F` with `embed_evalM`, `embed_evalS`, `embed_generic`: the old language is a sub-language.
+
+Deliberately NOT in the language (documented EXCEPTIONS of C01, see `C12M.c12m_transform2D_exception`,
+`c01m_scale2D_exception`): `transform2D` on 3D/4D vectors, `transform3D` on 4D vectors, `scale2D/3D` — they keep the stored
+θ/η/τ verbatim.  Not covered: 4D unary minus (`c11m_neg_tau_discrepancy`), `isclose`, `like`, `boost` / `boostCM_of`
+(the dimension-dispatching spellings of nodes that ARE covered), default tolerances of the predicates, `numpy.sqrt/cbrt`
+and `v ** q` for `q ≠ 2` (they apply the model's abstract `A.pow`), mixed 3D/4D operands of the angular methods.
+-/
 import VectorModel.Props.MethodExpr
 import VectorModel.Props.MethodOps
 
@@ -1469,12 +1503,16 @@ theorem bgam54 : P.copysign (sqrt (|(5 / 4 : ℝ)| ^ 2 - 1)) (5 / 4) = 3 / 4 := 
   simp only [P.copysign]
   rw [if_pos (by norm_num), abs_of_pos (by norm_num)]
 
+theorem bgam54' : P.copysign (sqrt ((5 / 4 : ℝ) ^ 2 - 1)) (5 / 4) = 3 / 4 := by
+  have h := bgam54
+  rwa [abs_of_pos (by norm_num)] at h
+
 /-- the specified value of the boosted, rotated sum (before `to_beta3`): the rotation by `π` about `(3, 0, 4)` maps
 `(3, 1, 2)` to `(27/25, -1, 86/25)`; the boost with `γ = 5/4`, `βγ = 3/4` gives `z = 44/5`, `t = 252/25` -/
 theorem exF_value : evalSF exSpecF (.boostZg (5 / 4) (.rotate_axis π (.add (.var 0) (.var 1)) (.var 2))) =
     [27 / 25, -1, 44 / 5, 252 / 25] := by
   simp only [evalSF, exSpecF, List.zipWith_cons_cons, List.zipWith_nil_right, axisRotL, onSpatial, axisRot, Spec10.rod,
-    sqrt25, cos_pi, sin_pi, on4, l4, bZγ, lorentz_boostZ_gamma.eval, lorentz_boostZ_gamma.xy_z_t, bgam54,
+    sqrt25, cos_pi, sin_pi, on4, l4, bZγ, lorentz_boostZ_gamma.eval, lorentz_boostZ_gamma.xy_z_t, bgam54',
     abs_of_pos (show (0 : ℝ) < 5 / 4 by norm_num)]
   norm_num
 
@@ -1482,7 +1520,7 @@ theorem exF_value : evalSF exSpecF (.boostZg (5 / 4) (.rotate_axis π (.add (.va
 theorem exF_generic : GenericAllF exSpecF exF := by
   simp only [exF, GenericAllF, evalSF, exSpecF, List.zipWith_cons_cons, List.zipWith_nil_right, axisRotL, onSpatial,
     axisRot, Spec10.rod, sqrt25, cos_pi, sin_pi, on4, l4, bZγ, lorentz_boostZ_gamma.eval, lorentz_boostZ_gamma.xy_z_t,
-    bgam54, abs_of_pos (show (0 : ℝ) < 5 / 4 by norm_num), beta3L, generic_iff3, generic_iff4, List.length_cons,
+    bgam54', abs_of_pos (show (0 : ℝ) < 5 / 4 by norm_num), beta3L, generic_iff3, generic_iff4, List.length_cons,
     List.length_nil]
   norm_num
 
@@ -1498,6 +1536,74 @@ example (K : Consts ℝ) (A : Arith ℝ) (hK : K.negOne = -1) :
   obtain ⟨v₁, v₂, e₁, e₂, h, -⟩ := c01f_indep K A hK exEnvF exEnvF' exEnvF_good exEnvF'_good
     (fun i => by rw [exEnvF_denote, exEnvF'_denote]) exF (hs ▸ exF_generic)
   exact ⟨v₁, v₂, e₁, e₂, h⟩
+
+/-- satisfiable scalar and truth-valued expressions over the same environment: `abs`, `v ** 2`, `Mt` of the momentum
+variable `v₁`, `deltaRapidityPhi(v₀ + v₁, v₁)`; `is_timelike(0)` of the boosted rotated sum, `is_parallel` of the two
+4D variables, `v₀ + v₁ == v₁.boostZ(gamma=5/4)` -/
+example : GenericSF exSpecF (.abs (.add (.var 0) (.var 1))) ∧ GenericSF exSpecF (.sq (.var 2)) ∧
+    GenericSF exSpecF (.mom .Mt (.var 1)) ∧ GenericSF exSpecF (.dRapPhi (.add (.var 0) (.var 1)) (.var 1)) ∧
+    GenericTF exSpecF (.causal .timelike 0 (.boostZg (5 / 4) (.rotate_axis π (.add (.var 0) (.var 1)) (.var 2)))) ∧
+    GenericTF exSpecF (.angle .parallel (1 / 10) (.var 0) (.var 1)) ∧
+    GenericTF exSpecF (.equal (.add (.var 0) (.var 1)) (.boostZg (5 / 4) (.var 1))) := by
+  refine ⟨?_, ?_, ?_, ?_, ⟨exF_generic.1, ?_⟩, ?_, ?_⟩
+  · simp only [GenericSF, GenericAllF, evalSF, exSpecF, List.zipWith_cons_cons, List.zipWith_nil_right,
+      generic_iff4, List.length_cons, List.length_nil]
+    norm_num
+  · simp only [GenericSF, GenericAllF, exSpecF, generic_iff3]
+    norm_num
+  · simp only [GenericSF, GenericAllF, evalSF, exSpecF, generic_iff4, List.length_cons, List.length_nil]
+    norm_num
+  · simp only [GenericSF, GenericAllF, evalSF, exSpecF, List.zipWith_cons_cons, List.zipWith_nil_right,
+      generic_iff4, List.length_cons, List.length_nil]
+    norm_num
+  · rw [exF_value]; rfl
+  · simp only [GenericTF, GenericAllF, evalSF, exSpecF, generic_iff4, List.length_cons, List.length_nil]
+    norm_num
+  · simp only [GenericTF, GenericAllF, evalSF, exSpecF, List.zipWith_cons_cons, List.zipWith_nil_right, on4, l4, bZγ,
+      lorentz_boostZ_gamma.eval, lorentz_boostZ_gamma.xy_z_t, bgam54', abs_of_pos (show (0 : ℝ) < 5 / 4 by norm_num),
+      generic_iff4, List.length_cons, List.length_nil]
+    norm_num
+
+/-- the momentum-flavor side condition of `Mt (var 1)` holds in the mixed-storage environment (`v₁` is a momentum object) -/
+example (K : Consts ℝ) (A : Arith ℝ) : MomOK K A exEnvF (.mom .Mt (.var 1)) := by
+  intro v hv
+  have : v = exEnvF 1 := (Except.ok.inj hv).symm
+  subst this
+  rfl
+
+/-! ## 8. The old language is a sub-language: `C01E.E` embeds into `F`, model, specification and genericity agree -/
+
+def embed : E → F
+  | .var i => .var i
+  | .add a b => .add (embed a) (embed b)
+  | .sub a b => .sub (embed a) (embed b)
+  | .scale k a => .scale k (embed a)
+  | .unit a => .unit (embed a)
+  | .rotateZ ang a => .rotateZ ang (embed a)
+  | .rotateX ang a => .rotateX ang (embed a)
+  | .rotateY ang a => .rotateY ang (embed a)
+  | .cross a b => .cross (embed a) (embed b)
+  | .boostX β a => .boostX β (embed a)
+  | .boostY β a => .boostY β (embed a)
+  | .boostZ β a => .boostZ β (embed a)
+  | .boost_p4 a b => .boost_p4 (embed a) (embed b)
+  | .boost_beta3 a b => .boost_beta3 (embed a) (embed b)
+  | .conv2 az a => .conv2 az (embed a)
+  | .conv3 az l a => .conv3 az l (embed a)
+  | .conv4 az l tm a => .conv4 az l tm (embed a)
+  | .to2D a => .to2D (embed a)
+  | .to3D a => .to3D (embed a)
+  | .to3D_kw l s a => .to3D_kw l s (embed a)
+  | .to4D_kw tm s a => .to4D_kw tm s (embed a)
+
+theorem embed_evalM (K : Consts ℝ) (A : Arith ℝ) (ρ : Nat → Vec ℝ) (e : E) : evalMF K A ρ (embed e) = evalMU K A ρ e := by
+  induction e <;> simp only [embed, evalMF, evalMU, *]
+
+theorem embed_evalS (ρS : Nat → List ℝ) (e : E) : evalSF ρS (embed e) = evalSU ρS e := by
+  induction e <;> simp only [embed, evalSF, evalSU, *]
+
+theorem embed_generic (ρS : Nat → List ℝ) (e : E) : GenericAllF ρS (embed e) ↔ GenericAllU ρS e := by
+  induction e <;> simp only [embed, GenericAllF, GenericAllU, evalSF, evalSU, embed_evalS, *]
 
 end C01F
 end VR
